@@ -18,7 +18,7 @@ func checkC10(c *Ctx) {
 	p := mustLoad(c, K1)
 	eff := sharedEffects(p)
 	pkgs := fftPkgs(p)
-	c.Rule("C10.codec", "CODEC: Domain.ReadFrom returns a nil error only after every binary.Read / io.ReadFull succeeded and every element passed the canonical ByteOrder.Element; it never uses a raw Reader.Read (any reader chunking); WriteTo tests every write", 10*2)
+	c.Rule("C10.codec", "CODEC: Domain.ReadFrom returns a nil error only after every binary.Read / io.ReadFull succeeded, every element passed the canonical ByteOrder.Element and the cardinality is a non-zero power of two within the 2-adicity of the field; it never uses a raw Reader.Read (any reader chunking); the tables of the receiver are rebuilt from the decoded parameters when the decoded precompute flag is set and dropped otherwise; WriteTo tests every write", 10*2)
 	c.Rule("C10.readonly", "EFFECTS: FFT, FFTInverse and the recursive kernels never write the Domain (tables, generators, flags): a domain shared by concurrent transforms is read-only; they write only the vector a", 10*2)
 	c.Rule("C10.partition", "PARTITION (L8): every closure handed to parallel.Execute in the fft package writes shared slices only at indices derived from its own [start,end) range — the structural condition for the result not to depend on the task count", 10)
 	c.Rule("C10.join", "JOIN (L8): a recursive half spawned with `go` is awaited (receive on its done channel) on every path before the function returns, and the callee closes that channel on every exit (deferred close)", 10*2)
@@ -32,6 +32,9 @@ func checkC10(c *Ctx) {
 				{"elements-read-fully", `^noerr io\.ReadFull\(p0,`},
 				{"elements-canonical", `^noerr (bigEndian|littleEndian)\.Element\(`},
 				{"flag-read", `^noerr encoding/binary\.Read\(p0,.*pr\.withPrecompute\)$`},
+				{"cardinality-non-zero", `^0 != pr\.Cardinality$|^pr\.Cardinality != 0$|^0 < pr\.Cardinality$`},
+				{"cardinality-power-of-two", `pr\.Cardinality-1\)&pr\.Cardinality\) == 0|pr\.Cardinality&\(pr\.Cardinality-1\)\) == 0`},
+				{"cardinality-within-2-adicity", `^noerr Generator\(pr\.Cardinality\)$`},
 			})
 			// MUST-PASS: a decoded domain with the precompute flag set has its tables rebuilt from
 			// the decoded parameters on every accepting path (they depend on the decoded shift, not
@@ -67,6 +70,19 @@ func checkC10(c *Ctx) {
 						}
 					}
 				}
+				// and when the flag is not set the receiver's previous tables are dropped: some store to
+				// the table fields exists on the flag-false branch
+				cleared := false
+				for _, b := range rf.Blocks {
+					for _, in := range b.Instrs {
+						if st, isSt := in.(*ssa.Store); isSt {
+							if fa, isFA := st.Addr.(*ssa.FieldAddr); isFA && fieldName(fa.X.Type(), fa.Field) == "cosetTable" && isNilConst(st.Val) {
+								cleared = true
+							}
+						}
+					}
+				}
+				c.Ob("C10.codec", pk, funcKey(rf), "tables-dropped-when-flag-clear", p.Pos(rf.Pos()), cleared, funcKey(rf)+": a domain decoded without the precompute flag keeps the tables its receiver held before (Twiddles()/CosetTable() then return the tables of another domain)")
 				c.Ob("C10.codec", pk, funcKey(rf), "tables-rebuilt-when-flag-set", p.Pos(rf.Pos()), ok, funcKey(rf)+": the accepting return at "+where+" is reachable with the decoded precompute flag set but without rebuilding the twiddle/coset tables from the decoded parameters: a receiver that already held tables keeps them (wrong coset)")
 			}
 			sites, hits := rawReads([]*ssa.Function{rf})
